@@ -271,8 +271,15 @@ func (c *c05) RunCase(r *fw.Rec, cs fw.Case) {
 		m, md := c05Wrap(rng, atom)
 		src, mod = pre+m, md
 	}
+	// half of the programs sit behind a host switch: after the hostile run the switch is turned off
+	// and the same Compiled must run to completion (no state of the failed run may survive)
+	switched := rng.Intn(2) == 0
+	if switched {
+		src = "if hostile_on {\n" + src + "\n}\nsurvivor := 41 + 1\n"
+	}
 	r.Logf("---- source ----\n%s\n---- module ----\n%s", src, mod)
 	s := tengo.NewScript([]byte(src))
+	_ = s.Add("hostile_on", true)
 	mm := stdModules()
 	if mod != "" {
 		mm.AddSourceModule("hostile", []byte(mod))
@@ -302,8 +309,27 @@ func (c *c05) RunCase(r *fw.Rec, cs fw.Case) {
 	installProbe(ps)
 	var runErr error
 	done := make(chan struct{})
+	// every context-aware entry point, with a context that can and one that cannot be cancelled
+	entry := pick(rng, []string{"Compiled.RunContext(Background)", "Compiled.RunContext(WithCancel)", "Script.RunContext(Background)", "Script.RunContext(WithCancel)"})
+	r.Inc("entry:" + entry)
+	detail["entry_point"] = entry
 	go func() {
-		runErr = safely(func() error { return cp.RunContext(bg) })
+		runErr = safely(func() error {
+			ctx := bg
+			if strings.HasSuffix(entry, "(WithCancel)") {
+				var cancel context.CancelFunc
+				ctx, cancel = context.WithCancel(bg)
+				defer cancel()
+			}
+			if strings.HasPrefix(entry, "Script.") {
+				cp2, e := s.RunContext(ctx)
+				if cp2 != nil {
+					cp = cp2
+				}
+				return e
+			}
+			return cp.RunContext(ctx)
+		})
 		close(done)
 	}()
 	select {
@@ -372,6 +398,7 @@ func (c *c05) RunCase(r *fw.Rec, cs fw.Case) {
 		return
 	}
 	// lock liveness + second run
+	recovered := false
 	live := make(chan error, 1)
 	go func() {
 		live <- safely(func() error {
@@ -381,10 +408,24 @@ func (c *c05) RunCase(r *fw.Rec, cs fw.Case) {
 			}
 			ctx, cancel := context.WithTimeout(context.Background(), 20*time.Second)
 			defer cancel()
+			if switched {
+				if e := cp.Set("hostile_on", false); e != nil {
+					return fmt.Errorf("Set(hostile_on, false): %v", e)
+				}
+			}
 			ps2 := &probeState{budget: 30_000_000}
 			installProbe(ps2)
-			_ = cp.RunContext(ctx)
+			e2 := cp.RunContext(ctx)
 			removeProbe()
+			if switched {
+				if e2 != nil {
+					return fmt.Errorf("with the hostile part switched off the second run still failed: %v", e2)
+				}
+				if got := canon(cp.Get("survivor").Object()); got != "i42" {
+					return fmt.Errorf("with the hostile part switched off the second run left survivor = %s, want 42", got)
+				}
+				recovered = true
+			}
 			return nil
 		})
 	}()
@@ -403,6 +444,12 @@ func (c *c05) RunCase(r *fw.Rec, cs fw.Case) {
 		panic("verif: worker abandoned after a hang")
 	}
 	r.Inc("post-run-checks")
+	if recovered {
+		r.Inc("recovered-after-hostile-run")
+		if runErr != nil {
+			r.Inc("recovered-after-failed-run")
+		}
+	}
 	if r.WantSample() && runErr != nil && len(src) < 300 {
 		r.Sample(map[string]interface{}{"source": src, "module": mod, "returned": firstLine(runErr.Error())})
 	}
@@ -471,7 +518,7 @@ func (c *c05) cyclicProbe(r *fw.Rec, i int) {
 }
 
 func (c *c05) Finish(m *fw.Merged, tier string) {
-	for _, k := range []string{"kind:atom", "kind:generated", "outcome:error", "outcome:ok", "post-run-checks", "cyclic-probes"} {
+	for _, k := range []string{"kind:atom", "kind:generated", "outcome:error", "outcome:ok", "post-run-checks", "cyclic-probes", "recovered-after-failed-run", "entry:Compiled.RunContext(Background)", "entry:Compiled.RunContext(WithCancel)", "entry:Script.RunContext(Background)", "entry:Script.RunContext(WithCancel)"} {
 		if m.Counters[k] == 0 {
 			m.Fail("never observed: " + k)
 		}
